@@ -145,7 +145,9 @@ func interesting(v *refjcs.Value) bool {
 func check(t ev.TB, chk string, input []byte, nontrivial bool, note string, classes ...string) {
 	kind, msg, class := judge(input)
 	ev.Record(chk, nontrivial || rejectClasses[class], ev.Hash(input), append(classes, "class:"+class)...)
-	ev.SampleFn(chk, func() interface{} { return map[string]string{"input": ev.Trunc(string(input), 200), "class": class, "note": note} })
+	ev.SampleFn(chk, func() interface{} {
+		return map[string]string{"input": ev.Trunc(string(input), 200), "class": class, "note": note}
+	})
 	if kind != "" {
 		ev.Fail(t, chk, kind, kind, &Case{Input: input, Note: note}, "%s", msg)
 	}
